@@ -8,7 +8,7 @@ VERIF = os.path.dirname(HERE)
 props = [json.loads(l)["id"] for l in open(os.path.join(VERIF, "properties.jsonl"))]
 checks = []
 for pid in props:
-    if pid in M.CLAIMED and os.path.exists(os.path.join(VERIF, "contracts", pid, "check.toml")):
+    if pid in M.CLAIMED and pid in M.READY and os.path.exists(os.path.join(VERIF, "contracts", pid, "check.toml")):
         c = M.CLAIMED[pid]
         checks.append({
             "property_id": pid,
